@@ -32,7 +32,7 @@ class Solver {
     this.queries = 0; this.solverMs = 0; this.errors = [];
     this.log = null;
     this.send('(set-option :timeout ' + (timeoutMs || 10000) + ')');
-    this.send('(set-option :rlimit ' + (rlimit || 40000000) + ')');
+    if (rlimit) this.send('(set-option :rlimit ' + rlimit + ')');     // off by default: z3 charges it to the whole incremental session
     this.send(PRELUDE_SMT);
   }
   send(text) { if (this.log) this.log.push(text); fs.writeSync(this.w, text + '\n'); }
@@ -1055,6 +1055,16 @@ const RT = {
       if (extra.length === 2) { lo = big(extra[0]); hi = big(extra[1]); }
       this.declareInput(name, 'Int', lo, hi);
       return new SNum('i', name, lo, hi, 0);
+    }
+    if (kind === 'Uint32L') {
+      // a uint32 declared through two 16-bit limbs (for limb-multiplication kernels such as bits.Mul32)
+      const limbs = [name + '_l0', name + '_l1'];
+      for (const l of limbs) this.declareInput(l, 'Int', 0n, 65535n);
+      const u = '(+ ' + limbs[0] + ' (* 65536 ' + limbs[1] + '))';
+      this.defineInput(name, 'Int', u);
+      const v = new SNum('i', u, 0n, P32 - 1n, 0);
+      v.bf = { limbs, u, s: 0, w: 32, exact: true };
+      return v;
     }
     if (kind === 'Range') {
       this.declareInput(name, 'Int', big(extra[0]), big(extra[1]));
